@@ -75,6 +75,7 @@ type FuncSpec struct {
 	TimeoutS    int
 	Fresh       []string // names of results declared fresh
 	NoFrame     bool
+	Variant     string // property this contract variant is for ("" = base contract)
 	UnderLock   string // the caller must hold this monitor lock (field path, e.g. ".lock"); held on entry, still held on return
 	GhostExit   []*GhostAssign
 	Devirt      []ast.Expr // concrete types to which interface calls in this function are resolved
@@ -135,6 +136,25 @@ type MonitorSpec struct {
 	Guards   []string // guarded field names ("f" of the monitor type, or "Type.f" for every object of Type)
 	Inv      *Clause  // monitor invariant over RecvName: assumed at Lock, asserted at Unlock
 	Assuming *Clause  // resource assumption: assumed at Lock, never asserted (listed as trusted)
+	// rely/guarantee with ownership by allocation: Guarantee is a two-state predicate between
+	// atLock(..) and the state at Unlock, asserted at every Unlock ("I only touch what I own");
+	// Rely is a two-state predicate between atUnlock(..) and the state at the next Lock, assumed
+	// after the havoc ("what I own is untouched by the others").  That every other thread's
+	// guarantee implies this thread's rely is a paper argument (ownership = fresh() is exclusive).
+	Rely      *Clause
+	Guarantee *Clause
+	Only      string // property this monitor declaration is limited to ("" = all)
+}
+
+// For returns the contract of a function for the given property: a variant
+// declared with `variant <prop> func ...` wins over the base contract.
+func (sp *Specs) For(key, prop string) *FuncSpec {
+	if prop != "" {
+		if v := sp.Funcs[key+"@"+prop]; v != nil {
+			return v
+		}
+	}
+	return sp.Funcs[key]
 }
 
 type GlobalSpec struct {
@@ -164,7 +184,7 @@ func NewSpecs() *Specs {
 var clauseKeywords = map[string]bool{
 	"func": true, "assumed": true, "spec": true, "pred": true, "props": true, "arith": true,
 	"inline": true, "pure": true, "requires": true, "ensures": true, "modifies": true, "panics": true,
-	"ghost": true, "loop": true, "invariant": true, "decreases": true, "unroll": true, "lemma": true,
+	"variant": true, "ghost": true, "loop": true, "invariant": true, "decreases": true, "unroll": true, "lemma": true,
 	"axiom": true, "package": true, "global": true, "trusted": true, "ghostfield": true, "opaque": true,
 	"timeout": true, "noframe": true, "underlock": true, "end": true, "ghostglobal": true, "monitor": true, "ghostexit": true, "devirt": true, "transparent": true,
 }
@@ -471,10 +491,20 @@ func (sp *Specs) ParseSpecText(lines []specLine, file, pkgPath string) error {
 			cur = nil
 		case "trusted":
 			sp.TrustedTxt = append(sp.TrustedTxt, s.rest)
-		case "func", "assumed", "lemma":
+		case "func", "assumed", "lemma", "variant":
 			hdr := s.rest
 			assumed := false
 			lemma := false
+			variant := ""
+			if s.kw == "variant" {
+				// variant <prop> func <header>: a contract used instead of the base one when <prop> is checked
+				ff := strings.SplitN(hdr, " ", 2)
+				if len(ff) != 2 {
+					return errf("variant <prop> func <header>")
+				}
+				variant = ff[0]
+				hdr = strings.TrimSpace(strings.TrimPrefix(strings.TrimSpace(ff[1]), "func"))
+			}
 			if s.kw == "assumed" {
 				assumed = true
 				hdr = strings.TrimSpace(strings.TrimPrefix(hdr, "func"))
@@ -494,10 +524,16 @@ func (sp *Specs) ParseSpecText(lines []specLine, file, pkgPath string) error {
 			}
 			fs.ParamNames, _ = fieldNames(fd.Type.Params, "p")
 			fs.ResultNames, _ = fieldNames(fd.Type.Results, "r")
-			if _, dup := sp.Funcs[fs.Key]; dup {
-				return errf("duplicate contract for %s", fs.Key)
+			mapKey := fs.Key
+			if variant != "" {
+				mapKey = fs.Key + "@" + variant
+				fs.Variant = variant
+				fs.Props = []string{variant}
 			}
-			sp.Funcs[fs.Key] = fs
+			if _, dup := sp.Funcs[mapKey]; dup {
+				return errf("duplicate contract for %s", mapKey)
+			}
+			sp.Funcs[mapKey] = fs
 			cur = fs
 			curLoop = nil
 		case "end":
@@ -626,28 +662,35 @@ func (sp *Specs) ParseSpecText(lines []specLine, file, pkgPath string) error {
 		case "monitor":
 			// monitor recv Type lockfield guards f1 f2 ... [invariant expr]
 			rest := s.rest
-			var inv, assuming *Clause
-			if i := strings.Index(rest, " assuming "); i >= 0 {
-				cl, err := parseClause(rest[i+len(" assuming "):], file, s.line)
+			segs := map[string]*Clause{}
+			for {
+				// cut the last segment off, repeatedly
+				best, bestKw := -1, ""
+				for _, kw := range []string{" invariant ", " assuming ", " rely ", " guarantee "} {
+					if i := strings.LastIndex(rest, kw); i > best {
+						best, bestKw = i, kw
+					}
+				}
+				if best < 0 {
+					break
+				}
+				cl, err := parseClause(rest[best+len(bestKw):], file, s.line)
 				if err != nil {
 					return err
 				}
-				assuming = cl
-				rest = rest[:i]
-			}
-			if i := strings.Index(rest, " invariant "); i >= 0 {
-				cl, err := parseClause(rest[i+len(" invariant "):], file, s.line)
-				if err != nil {
-					return err
-				}
-				inv = cl
-				rest = rest[:i]
+				segs[strings.TrimSpace(bestKw)] = cl
+				rest = rest[:best]
 			}
 			f := strings.Fields(rest)
-			if len(f) < 5 || f[3] != "guards" {
-				return errf("monitor recv Type lockfield guards f1 f2 ... [invariant expr]")
+			only := ""
+			if len(f) > 4 && f[3] == "only" {
+				only = f[4]
+				f = append(f[:3:3], f[5:]...)
 			}
-			sp.Monitors[pkgPath+"."+f[1]] = &MonitorSpec{PkgPath: pkgPath, RecvName: f[0], TypeName: f[1], Lock: f[2], Guards: f[4:], Inv: inv, Assuming: assuming}
+			if len(f) < 5 || f[3] != "guards" {
+				return errf("monitor recv Type lockfield [only Cxx] guards f1 f2 ... [invariant expr] [rely expr] [guarantee expr] [assuming expr]")
+			}
+			sp.Monitors[pkgPath+"."+f[1]+"@"+only] = &MonitorSpec{PkgPath: pkgPath, RecvName: f[0], TypeName: f[1], Lock: f[2], Guards: f[4:], Inv: segs["invariant"], Assuming: segs["assuming"], Rely: segs["rely"], Guarantee: segs["guarantee"], Only: only}
 		case "global":
 			f := strings.Fields(s.rest)
 			g := &GlobalSpec{PkgPath: pkgPath, Name: f[0]}
